@@ -1,9 +1,138 @@
-// threads.cpp -- C19 (placeholder until the scheduler is linked)
+// threads.cpp -- C19: separate codec instances used concurrently.
+// A C19 plan holds 2-4 thread workloads (items tagged th=<n>, each with its own cfg item naming the
+// generator family it came from) plus the scheduler configuration. Every workload is first executed alone
+// (reference digest), then all of them on real threads under the seeded scheduler (sched variant) or
+// free-running (tsan variant).
+#include <functional>
+#include <thread>
+
 #include "exec.h"
+#include "sched.h"
+
 namespace sim
 {
+
+static std::vector<Plan> splitThreads(const Plan& plan, int n)
+{
+    std::vector<Plan> subs(static_cast<size_t>(n));
+    for (int t = 0; t < n; ++t)
+    {
+        Plan& s = subs[static_cast<size_t>(t)];
+        s.seed = plan.seed;
+        s.idx = plan.idx;
+        s.prop = "C19";
+        for (auto& it : plan.items)
+        {
+            if (!it.has("th") || it.get("th") != t)
+                continue;
+            Item c = it;
+            if (c.tag == "cfg")
+            {
+                char buf[8];
+                snprintf(buf, sizeof buf, "C%02d", static_cast<int>(c.get("propn", 1)));
+                s.prop = buf;
+            }
+            s.items.push_back(std::move(c));
+        }
+        // cfg first
+        std::stable_sort(s.items.begin(), s.items.end(), [](const Item& a, const Item& b) { return (a.tag == "cfg") > (b.tag == "cfg"); });
+    }
+    return subs;
+}
+
 RunResult execThreads(const Plan& plan)
 {
-    return execPlan(plan);
+    RunResult out;
+    const int n = static_cast<int>(std::min<int64_t>(std::max<int64_t>(1, plan.cfgGet("nthreads", 2)), 4));
+    std::vector<Plan> subs = splitThreads(plan, n);
+    // reference: every workload alone
+    std::vector<uint64_t> solo(static_cast<size_t>(n));
+    for (int t = 0; t < n; ++t)
+    {
+        RunResult r = execPlan(subs[static_cast<size_t>(t)]);
+        solo[static_cast<size_t>(t)] = r.eventHash;
+        out.apiCalls += r.apiCalls;
+        out.deliveries += r.deliveries;
+        out.simTimeUs += r.simTimeUs;
+    }
+    std::vector<RunResult> res(static_cast<size_t>(n));
+    std::vector<std::function<void()>> bodies;
+    for (int t = 0; t < n; ++t)
+        bodies.push_back([&res, &subs, t] { res[static_cast<size_t>(t)] = execPlan(subs[static_cast<size_t>(t)]); });
+#if defined(SIM_VARIANT_SCHED)
+    sched::Config cfg;
+    cfg.seed = static_cast<uint64_t>(plan.cfgGet("schedseed", 1));
+    cfg.meanRun = plan.cfgGet("mean", 100);
+    cfg.mode = static_cast<int>(plan.cfgGet("mode", 0));
+    cfg.points = static_cast<int>(plan.cfgGet("points", 3));
+    for (auto& it : plan.items)
+        if (it.tag == "op" && it.get("k") == 20)
+        {
+            cfg.useExplicit = true;
+            cfg.explicitSwitches.emplace_back(static_cast<uint64_t>(it.get("at")), static_cast<int>(it.get("to")));
+        }
+    if (plan.cfgGet("explicit", 0))
+        cfg.useExplicit = true;
+    std::sort(cfg.explicitSwitches.begin(), cfg.explicitSwitches.end());
+    if (cfg.mode == 1 && !cfg.useExplicit)
+    {
+        uint64_t horizon = 0;
+        for (int t = 0; t < n; ++t)
+            horizon += sched::countYieldPoints([&subs, t] { execPlan(subs[static_cast<size_t>(t)]); });
+        cfg.horizon = horizon;
+    }
+    sched::Report rep = sched::runThreads(cfg, bodies);
+    out.interleaveHash = rep.scheduleHash;
+    out.probes["scheduled-run"] += 1;
+    out.probes["yield-points"] += rep.yields;
+    out.probes["thread-switches"] += rep.switches;
+    out.probes["recorded-accesses"] += rep.accesses;
+    if (rep.preemptedInsideLibrary)
+        out.probes["preempted-inside-library"] += 1;
+    if (rep.switches >= 10)
+        out.probes["ten-or-more-switches"] += 1;
+    out.stateHashes.push_back(rep.scheduleHash);
+    for (auto& c : rep.conflicts)
+    {
+        Violation v;
+        v.prop = plan.prop;
+        v.rule = "thr.conflict";
+        v.detail = c;
+        out.viol.push_back(v);
+        break;
+    }
+    if (!rep.conflicts.empty() && rep.conflicts.size() > 1)
+        out.viol[0].detail += " | " + rep.conflicts.back();
+    out.simTimeUs += rep.yields;  // "time" of the threaded phase = yield points
+#else
+    {
+        std::vector<std::thread> th;
+        for (int t = 0; t < n; ++t)
+            th.emplace_back(bodies[static_cast<size_t>(t)]);
+        for (auto& t : th)
+            t.join();
+        out.probes["free-running-threads"] += 1;
+    }
+#endif
+    out.eventHash = 0xC19;
+    for (int t = 0; t < n; ++t)
+    {
+        const RunResult& r = res[static_cast<size_t>(t)];
+        out.eventHash = hashU64(r.eventHash, out.eventHash);
+        if (r.eventHash != solo[static_cast<size_t>(t)])
+        {
+            Violation v;
+            v.prop = plan.prop;
+            v.rule = "thr.digest";
+            v.detail = "thread " + std::to_string(t) + " (" + subs[static_cast<size_t>(t)].prop + " workload) produced results different from the same workload run alone";
+            out.viol.push_back(v);
+        }
+        for (auto& kv : r.probes)
+            out.probes[kv.first] += kv.second;
+        out.apiCalls += r.apiCalls;
+        out.deliveries += r.deliveries;
+    }
+    return out;
 }
+
 }  // namespace sim
